@@ -329,6 +329,13 @@ impl Sys {
                 }
                 if diffs.is_empty() { Ok(format!("ok:same:{}", live.len())) } else { Ok(format!("ok:diff:{}", diffs.join(";"))) }
             }
+            ["pubrm", ca] => {
+                // the admin removes the CA's publisher at the publication server
+                krill.repo_manager().remove_publisher(
+                    rpki::ca::idexchange::PublisherHandle::from_str(ca).unwrap(), actor, rt
+                )?;
+                Ok("ok".into())
+            }
             ["history", ca] => {
                 let hist = cm.ca_history(&h(ca), krill::api::history::CommandHistoryCriteria::default())?;
                 Ok(format!("ok:{}", hist.total))
@@ -799,6 +806,25 @@ impl Sys {
             server.insert(p, Value::Array(l));
         }
         o.insert("server".into(), Value::Object(server));
+        // what the content store holds per publisher, registered or not (objects in the snapshot and
+        // staged elements): content of a publisher that is no longer registered is orphaned
+        if let Ok(cs) = self.krill.repo_manager().verif_content_state_json() {
+            let mut held = Map::new();
+            let snap = cs.get("rrdp").and_then(|r| r.get("snapshot")).and_then(|s| s.get("publishers_current_objects"));
+            if let Some(Value::Object(m)) = snap {
+                for (p, objs) in m {
+                    let n = objs.as_object().map(|x| x.len()).unwrap_or(0);
+                    if n > 0 { held.insert(p.clone(), json!(n)); }
+                }
+            }
+            if let Some(Value::Object(m)) = cs.get("rrdp").and_then(|r| r.get("staged_elements")) {
+                for (p, st) in m {
+                    let n = st.as_object().map(|x| x.len()).unwrap_or(0);
+                    if n > 0 { held.insert(format!("{p}+staged"), json!(n)); }
+                }
+            }
+            o.insert("server_held".into(), Value::Object(held));
+        }
         if let Ok(stats) = self.krill.repo_manager().repo_stats() {
             o.insert("rrdp".into(), json!({"serial": stats.serial, "session": self.canon.serial(&stats.session.to_string())}));
         }
